@@ -39,7 +39,7 @@ RELOPS = ("=", "<>", "<", ">", "<=", ">=")
 
 def is_str(e):
     k = e[0]
-    if k == "str":
+    if k in ("str", "ostr"):
         return True
     if k in ("var", "arr"):
         return e[1].endswith("$")
@@ -103,6 +103,9 @@ class R(object):
             self.add(e[2], "lit")
         elif k == "str":
             self.add('"%s"' % e[1])
+        elif k == "ostr":
+            # a string literal whose closing quote is left out: legal as the very end of a line (the text runs to the line end)
+            self.add('"%s' % e[1])
         elif k == "var":
             self.add(e[1])
         elif k == "arr":
